@@ -135,7 +135,7 @@ func (rw *Rewriter) stmt(s Stmt) Stmt {
 		if len(x.Vals) != len(x.Names) {
 			kind = "multi-call-init"
 		}
-		o := VarDecl{Names: rw.names(x.Names), Ty: x.Ty, Tys: x.Tys, Form: x.Form, Err: x.Err, Vals: rw.exprs(x.Vals, kind)}
+		o := VarDecl{Names: rw.names(x.Names), Ty: x.Ty, Tys: x.Tys, Form: x.Form, Err: x.Err, Reuse: x.Reuse, Vals: rw.exprs(x.Vals, kind)}
 		if rw.Decl != nil {
 			o = rw.Decl(o)
 		}
